@@ -27,7 +27,13 @@ def main():
         sys.exit(3)
     if a.replay:
         try:
-            rc = mod.replay(a.replay)
+            import json
+            d = json.load(open(a.replay))
+            if isinstance(d, dict) and d.get('kind') == 'scenario':
+                from . import oracle
+                rc = oracle.replay(d)
+            else:
+                rc = mod.replay(a.replay)
         except Exception:
             traceback.print_exc()
             rc = 3
